@@ -584,7 +584,10 @@ impl Scenario for C14 {
             0..=3 => hostile_jitter_spec(rng),
             4..=7 => hostile_det_spec(rng),
             16 => {
-                if rng.chance(1, 6) {
+                if rng.chance(1, 110) {
+                    // (about 85 marathons of 2^27 words per quick check)
+                    marathon_spec(rng, "C14", "marathon", if tier == Tier::Quick { 128 } else { 256 })
+                } else if rng.chance(1, 6) {
                     seeding_sweep_spec(rng, "C14", "seeding_sweep")
                 } else {
                     hostile_snapshot_spec(rng)
@@ -610,6 +613,11 @@ impl Scenario for C14 {
             let r = match spec.variant.as_str() {
                 "hostile_jitter" => run_hostile_jitter(spec, st),
                 "hostile_snapshot" => run_hostile_snapshot(spec, st),
+                "marathon" => match run_marathon(spec, st) {
+                    Ok(()) => Ok(()),
+                    Err(SutFail::Panic(m)) => Err(E::End(sut_panic("marathon", &m))),
+                    Err(SutFail::ClockAbort) => Ok(()),
+                },
                 "seeding_sweep" => match run_seeding_sweep(spec, st) {
                     Ok(()) => Ok(()),
                     Err((i, SutFail::Panic(m))) => Err(E::End(sut_panic(&format!("seeding #{}", i), &m))),
